@@ -265,9 +265,11 @@ def main(tier, seed):
         items += [(a, b, 2, ("upd", "flat")) for a in hists for b in hists
                   if (len(a) == 3) != (len(b) == 3) and min(len(a), len(b)) == 1]
     else:
-        items += [(a, b, 3) for a in small for b in small]
-        items += [(a, b, 2) for a in hists for b in hists if (len(a) == 3) != (len(b) == 3)]
-        items += [(a, b, 1) for a in hists for b in hists if len(a) == 3 and len(b) == 3]
+        items += [(a, b, 3) for a in small for b in small if len(a) <= 1 and len(b) <= 1]
+        items += [(a, b, 2) for a in small for b in small if max(len(a), len(b)) == 2]
+        items += [(a, b, 2) for a in hists for b in hists if (len(a) == 3) != (len(b) == 3) and min(len(a), len(b)) <= 1]
+        items += [(a, b, 1) for a in hists for b in hists if (len(a) == 3) != (len(b) == 3) and min(len(a), len(b)) == 2]
+        items += [(a, b, 1, ("upd", "flat")) for a in hists for b in hists if len(a) == 3 and len(b) == 3]
     out2 = explore.pmap(__name__, tier, {}, "pair_case", items, chunk=40)
     out.merge(out2)
     out.evaluations = out.evaluations - len(items)  # pmap counts items; run_seq counts sequences
